@@ -243,3 +243,19 @@ CLAIMED['C12'] = ('model_checking',
     'reader), the tokeniser, expected characters = symbols after TeX ligatures.  The routing of text through ~300 template files is not '
     'modelled: positions are covered by rendering, so for templates the assurance is exhaustive small-scope testing of the real renderer.',
     TECH)
+CLAIMED['C17'] = ('model_checking',
+    'Isolation.tla: interpreter-wide state (parameter enable level, math stack depth, list depth, the \\( \\) switch, values held by the '
+    'parameter classes, level of the shared index classes) and documents = class x sequence of state-touching features (register assignment '
+    'and use, an argument of type any, $..$, \\(..\\), a list, \\printindex) x ending (normal, inside $, inside a list, exception while an '
+    'argument is read, exception elsewhere); every action is shaped like the code path it stands for and four constants select as-built or '
+    'repaired code (AnyEnables, ParseRestores, ClassPerDoc, RegsPerDoc; as-built reproduces F11-F15 as TLC counterexamples).  TLC checks '
+    'CleanAfterDocument, ResultIndependent and AssignmentsRun over every history of 2 documents x <= 2 (thorough 3) features (829k states).  '
+    'spec->code: every history of two one-feature documents and every two-feature document is run by the real engine in one freshly forked '
+    'interpreter: observations of the last document, the interpreter-wide state read from the real classes, and canonical toXML() against '
+    'the same document alone in a fresh interpreter.  code->spec: seeded random histories (<= 4 documents x <= 4 features) validated by TLC '
+    'against IsolationTrace.tla (verdict names document and field).  A generic detector diffs ALL class attributes of all classes in plasTeX '
+    'modules before/after every document.',
+    'DESIGN.md#c17',
+    'Trusted: TLC, Isolation.tla, the concretiser and DOM observers, fork() giving a pristine interpreter.  Generated identifiers are '
+    'renumbered (the property allows their spelling to differ); @arguments/@locals/@hasgenid class caches are not compared.',
+    TECH)
